@@ -99,6 +99,7 @@ func (e *Exec) callMerged(caller *frame, fn *ssa.Function, args []Value, env []V
 		e.model = sModel
 		e.relVars, e.relSeen = sRelVars, sRelSeen
 	}
+	baseDefs := len(e.defs)
 	e.merging++
 	defer func() { e.merging-- }()
 	var subs []mergeSub
@@ -128,6 +129,7 @@ func (e *Exec) callMerged(caller *frame, fn *ssa.Function, args []Value, env []V
 		res, good := e.runMergeSub(caller, fn, args, env)
 		if !good || len(subs) >= 48 {
 			restore()
+			e.defs = e.defs[:baseDefs]
 			return nil, false
 		}
 		cond := e.B.Bool(true)
@@ -140,6 +142,11 @@ func (e *Exec) callMerged(caller *frame, fn *ssa.Function, args []Value, env []V
 	restore()
 	if len(subs) == 0 {
 		return nil, false
+	}
+	// definitional constraints introduced inside the sub-paths constrain fresh
+	// variables only: keep them
+	for _, d := range append([]*Term(nil), e.defs[baseDefs:]...) {
+		e.assume(d)
 	}
 	merged := subs[len(subs)-1].res
 	for i := len(subs) - 2; i >= 0; i-- {
@@ -177,8 +184,18 @@ func (e *Exec) mergeVal(c *Term, a, b Value) (Value, bool) {
 		return nil, b == nil
 	case *Term:
 		bv, ok := b.(*Term)
-		if !ok || av.Sort != bv.Sort {
+		if !ok {
 			return nil, false
+		}
+		if av.Sort != bv.Sort {
+			// an integer carried as a real against a bit-vector constant
+			if av.Sort.K == SReal && bv.Sort.K == SBV && bv.IsConst() {
+				bv = e.B.BvToReal(bv, false)
+			} else if bv.Sort.K == SReal && av.Sort.K == SBV && av.IsConst() {
+				av = e.B.BvToReal(av, false)
+			} else {
+				return nil, false
+			}
 		}
 		return e.B.Ite(c, av, bv), true
 	case StructV:
